@@ -233,19 +233,26 @@ CasesExpandName == {CaseRec("expandname", "expand", <<ChartYamlEntry, Entry(nm, 
                       cn \in ChartNames}
 
 \* F3: names exposed by a loaded chart
+\* (no file system involved, so EVERY separator per gap is taken at every length: names that mix / and \,
+\*  e.g. top/n1\..\..\n2 or top/n1\C:\n2, are part of the space in both tiers)
+MixedNameSpace(k) == UNION {{[comps |-> cs, seps |-> ss] : cs \in [1..n -> Comp], ss \in [1..(n - 1) -> Seps]} : n \in 1..k}
 CasesLoad == {CaseRec("load1", "load", <<ChartYamlEntry, Entry(x[1], x[2], IF x[2] \in {"reg", "xheader"} THEN 8 ELSE 0)>>,
                       "empty", <<"chart">>, "", "") :
-                 x \in TypedNames(MaxComps, Types)}
+                 x \in {y \in MixedNameSpace(MaxComps) \X Types : ~(y[2] = "xheader" /\ y[1].comps = <<"">>)}}
 
 \* F3s: sizes.  Chart.yaml (64 bytes) + up to 3 files; sizes around both limits
 \* (Chart.yaml + one file of FLim bytes + one of TLim - 64 - FLim bytes hits the total limit exactly)
 SizeVals == {0, 64, TLim - ChartYamlSize - FLim - 1, TLim - ChartYamlSize - FLim, TLim - ChartYamlSize - FLim + 1,
              FLim - 1, FLim, FLim + 1, Huge}
-SizedEntry(i, sz, short, enc) ==
-  [comps |-> <<"top", "f" \o ToString(i)>>, seps |-> <<"/">>, type |-> "reg", size |-> sz, short |-> short, enc |-> enc]
+\* every type flag whose body the tar reader hands out like a file's: '0', NUL (old regular), '7' (contiguous),
+\* an unknown vendor flag
+DataTypes == {"reg", "rega", "cont", "vendor"}
+SizedEntry(i, sz, short, enc, ty) ==
+  [comps |-> <<"top", "f" \o ToString(i)>>, seps |-> <<"/">>, type |-> ty, size |-> sz, short |-> short, enc |-> enc]
 SizeStreams(maxn) ==
-  UNION {{[i \in 1..n |-> SizedEntry(i, ss[i], FALSE, enc)] : ss \in [1..n -> SizeVals], enc \in {"ustar", "pax"}} : n \in 1..maxn}
-  \cup {<<SizedEntry(1, sz, TRUE, "ustar")>> : sz \in SizeVals \ {0}}
+  UNION {{[i \in 1..n |-> SizedEntry(i, ss[i], FALSE, enc, ty)] : ss \in [1..n -> SizeVals], enc \in {"ustar", "pax"}, ty \in DataTypes} :
+           n \in 1..maxn}
+  \cup {<<SizedEntry(1, sz, TRUE, "ustar", ty)>> : sz \in SizeVals \ {0}, ty \in DataTypes}
 CasesSize(maxn) == {CaseRec("size", "load", <<ChartYamlEntry>> \o st, "empty", <<"chart">>, "", "") : st \in SizeStreams(maxn)}
 
 \* F4: Manager.Update with a local dependency and something planted at the lock path
